@@ -9,6 +9,7 @@ from permuta.permutils.pinword_util import PinWordUtil
 from .. import monitor
 from ..oracle import classical as C
 from ..oracle import pins as P
+from ..oracle import sorting as SO
 
 ID = "C14"
 RULE = (
@@ -23,7 +24,7 @@ RULE = (
 ASSUMPTIONS = ["oracle: vf/oracle/pins.py (Fractions); known finding K3 recognised only by buggy-model replay of the word matcher"]
 REQUIRED = ["calls.PinWords.pinword_to_perm", "calls.PinWordUtil.call", "calls.PinWords.sp_to_m", "calls.PinWords.m_to_sp", "calls.PinWords.quadrant",
             "calls.PinWords.factor_pinword", "calls.PinWords.pinword_occurrences_sp", "calls.PinWords.pinword_contains", "tables.checked",
-            "containment.decided", "containment.positive", "hook.numeral_pins", "hook.direction_pins", "aliasing.factor_list_mutated", "faults.injected", "long.factor_searches", "long.subpermutations_searched"]
+            "containment.decided", "containment.positive", "hook.numeral_pins", "hook.direction_pins", "aliasing.factor_list_mutated", "faults.injected", "long.factor_searches", "long.subpermutations_searched", "verylong.containment_decided", "ambient.perturbed_runs"]
 MIN_NONTRIVIAL = 500
 CTX = None
 MON = None
@@ -150,6 +151,8 @@ def post_contains(args, kwargs, res, exc):
     if exc is not None:
         report("pair", [w, u], f"pinword_contains({w!r}, {u!r}) raised {exc!r}")
         return
+    if len(w) > 40:
+        return  # (the word-level model is exponential on long words; those calls are judged geometrically by chk_verylong)
     try:
         if res is not P.word_contains(w, u, gap_rule=True):
             CTX.count("wordlevel.differs_from_gap_model")
@@ -336,6 +339,56 @@ def chk_long(ctx, w, seed):
     chk_containment(ctx, w, rng.sample(range(4), 4))
 
 
+def chk_verylong(ctx, w, sigmas):
+    """words of more than a thousand letters: decoding (monitor) and containment of short patterns, judged geometrically.
+    Only the direction the known finding cannot touch is asserted: a contained pattern must be found, and no call may fail."""
+    big = operm(w)
+    PinWords.pinword_to_perm(w)
+    PinWords.factor_pinword(w)
+    for sig in sigmas:
+        sig = tuple(sig)
+        truth = C.contains(big, sig) if len(sig) <= 2 else SO.contains3(big, sig)
+        got = any(PinWords.pinword_contains(w, u) for u in words_of(sig))
+        ctx.ev()
+        ctx.count("verylong.containment_decided")
+        if truth and not got:
+            report("verylong", [w, [list(s) for s in sigmas]], f"perm of a {len(w)}-letter word contains {sig} but none of its pin words is found in the word")
+        elif got and not truth:
+            ctx.count("verylong.positive_not_confirmed")
+
+
+def chk_ambient(ctx, seed):
+    """process-global state changed by unrelated code before the library is used: tiny decimal precision, re-seeded random
+    module, another working directory, a different recursion limit; decoding and tables are judged by the monitors as always"""
+    import decimal
+    import os
+    import random
+    import sys
+    import tempfile
+
+    rng = random.Random(seed)
+    old = (decimal.getcontext().prec, os.getcwd(), sys.getrecursionlimit())
+    tmp = tempfile.mkdtemp(prefix="vf-c14-")
+    try:
+        decimal.getcontext().prec = rng.choice([1, 2, 3])
+        random.seed(12345)
+        os.chdir(tmp)
+        sys.setrecursionlimit(rng.choice([1500, 3000]))
+        for n in (1, 2, 3, 4):
+            chk_tables(ctx, n)
+        for _ in range(60):
+            w = rand_word(rng, rng.choice([3, 5, 9, 25, 60, 210]), rng.choice([0.0, 0.1]))
+            chk_word(ctx, w)
+        ctx.count("ambient.perturbed_runs")
+    finally:
+        decimal.getcontext().prec = old[0]
+        os.chdir(old[1])
+        sys.setrecursionlimit(old[2])
+        import shutil
+
+        shutil.rmtree(tmp, ignore_errors=True)
+
+
 def chk_table_fault(ctx, n, k):
     """error path: the FIRST request of a table for a length is aborted at a failpoint; the tables must be right afterwards"""
     for fn in (PinWords.perm_to_pinword_mapping, PinWords.pinword_to_perm_mapping, PinWords.perm_to_strict_pinword_mapping):
@@ -344,7 +397,7 @@ def chk_table_fault(ctx, n, k):
     chk_tables(ctx, n)
 
 
-CHECKS = {"long": chk_long, "tablefault": chk_table_fault, "word": chk_word, "strict": chk_strict, "mword": chk_mword, "tables": chk_tables, "contain": chk_containment}
+CHECKS = {"verylong": chk_verylong, "ambient": chk_ambient, "long": chk_long, "tablefault": chk_table_fault, "word": chk_word, "strict": chk_strict, "mword": chk_mword, "tables": chk_tables, "contain": chk_containment}
 
 
 def plan(tier, seed):
@@ -354,12 +407,26 @@ def plan(tier, seed):
     parts = 16
     specs += [{"name": f"contain-{i}", "kind": "contain", "wmax": wmax, "part": i, "parts": parts,
                "sample5": (400 if tier == "quick" else 5000) // parts, "sample6": (0 if tier == "quick" else 2000) // parts} for i in range(parts)]
+    specs += [{"name": "ambient", "kind": "ambient"}, {"name": "verylong", "kind": "verylong"}]
     specs += [{"name": f"long-{i}", "kind": "long", "count": 40 if tier == "quick" else 400} for i in range(4 if tier == "quick" else 12)]
     return specs
 
 
 def run(ctx, spec):
     rng = ctx.rng
+    if spec["kind"] == "ambient":
+        # a fresh process: the tables are built for the first time under the perturbed state
+        chk_ambient(ctx, rng.randrange(10 ** 9))
+        return
+    if spec["kind"] == "verylong":
+        a, b = rng.choice(["RU", "UR", "LD", "DL", "RD", "UL"]), rng.choice(["3L", "2U", "4R", "1U"])
+        # (the library's own search is polynomial of degree = number of factors of the pattern's pin words: patterns of
+        # length 2 on the words of more than 1000 letters, length 3 on a 300-letter word)
+        for w in ("1" + "RU" * 575 + "3L", rng.choice("1234") + a * rng.randint(520, 600) + b):
+            chk_verylong(ctx, w, [[1, 0], [0, 1]])
+        chk_verylong(ctx, rng.choice("1234") + a * 150 + b, [[0, 1, 2], [2, 1, 0], [1, 0, 2]])
+        ctx.note("two words of more than 1000 letters, one of 300")
+        return
     if spec["kind"] == "long":
         for _ in range(spec["count"]):
             w = rand_word(rng, rng.randint(6, 11), rng.choice([0.0, 0.0, 0.1, 0.25]))
